@@ -70,6 +70,7 @@ GROUPS = {
             H("emit_update_offset_placeholder", ["C05", "C06"], "Compiler::update_offset_placeholder", bound="code size <= 70 000 bytes (u16 limit 65 535 inside the bound); offsets and contents symbolic"),
             H("emit_push_jump_back_op", ["C05", "C06"], "Compiler::push_jump_back_op, push_op_without_span, push_bytes", bound="code size <= 70 000 bytes (u16 limit 65 535 inside the bound); target and operands symbolic"),
             H("emit_op_byte_roundtrip", ["C05"], "impl From<u8> for Op"),
+            H("emit_function_flags_roundtrip", ["C05", "C02"], "FunctionFlags::{new, is_variadic, is_generator, arg_is_unpacked_tuple, non_local_access}, From<FunctionFlags> for u8, TryFrom<u8>"),
         ],
     },
     "K-strslice": {
